@@ -193,3 +193,113 @@ def _(c):
             cases={'n': [n for n in range(0, 41) if n not in (8, 16, 24)]})
 def _(c):
     c.raises('key-size', Exception, des.TDEA, c.bytes('K', c.case('n')))
+
+# =====================================================================  Serpent
+from spec import serpent as SP
+import crysp.serpent as serpent
+from props.sym_common import *
+
+@obligation(P, 'crysp.serpent._S/post', cls='L', cases={'i': list(range(8)), 'inv': [0, 1]}, funcs=['crysp.serpent._S', 'crysp.serpent._Sinv', 'crysp.serpent._IP', 'crysp.serpent._FP'], timeout=200)
+def _(c):
+    i, inv = c.case('i'), c.case('inv')
+    X = c.bits('X', 128)
+    r = c.call(serpent._Sinv if inv else serpent._S, i, X)
+    c.ensure('bitslice-sbox', land(val.eq(r.ival, (SP.sinv_layer if inv else SP.s_layer)(i, X.ival)), r.size == 128))
+
+@obligation(P, 'crysp.serpent._L/post', cls='L', cases={'inv': [0, 1]}, funcs=['crysp.serpent._L', 'crysp.serpent._Linv'])
+def _(c):
+    X = c.bits('X', 128)
+    r = c.call(serpent._Linv if c.case('inv') else serpent._L, X)
+    c.ensure('linear', land(val.eq(r.ival, (SP.lt_inv if c.case('inv') else SP.lt)(X.ival)), r.size == 128))
+    c.raises('wrong-size', Exception, serpent._L, c.bits('Y', 127))
+
+@obligation(P, 'crysp.serpent.Serpent.__init__/post', cls='L', opaque=SP.NAMES, cases={'n': list(range(0, 33))}, funcs=['crysp.serpent.Serpent.__init__', 'crysp.serpent._keysched'], timeout=200,
+            note='every key length 0..32 bytes: 1-bit-then-zero padding of short keys, prekey recurrence, round keys; key contents symbolic')
+def _(c):
+    install_serpent_contracts(c)
+    key = c.bytes('K', c.case('n'))
+    s = c.call(serpent.Serpent, key)
+    exp = SP.round_keys(SP.pad_key(list(key)))
+    c.ensure('count', len(s.keys) == 33)
+    c.ensure('roundkeys', land(*[land(val.eq(k.ival, e), k.size == 128) for k, e in zip(s.keys, exp)]))
+
+@obligation(P, 'crysp.serpent.Serpent.enc-dec/post', cls='L', opaque=SP.NAMES, cases={'dir': ['enc', 'dec']}, funcs=['crysp.serpent.Serpent.enc', 'crysp.serpent.Serpent.dec'])
+def _(c):
+    install_serpent_contracts(c)
+    s = serpent.Serpent.__new__(serpent.Serpent)
+    s.keys = [c.bits('k%d' % i, 128) for i in range(33)]
+    blk = c.bytes('B', 16)
+    out = c.call(getattr(serpent.Serpent, c.case('dir')), s, blk)
+    x = val.from_le(list(blk)); K = [k.ival for k in s.keys]
+    exp = SP.encrypt_rk(K, x) if c.case('dir') == 'enc' else SP.decrypt_rk(K, x)
+    c.ensure('block', val.eq(out, val.le_bytes(exp, 16)))
+    c.ensure('length', len(out) == 16)
+
+@obligation(P, 'crysp.serpent.Serpent/rejects', cls='B', bound='key lengths 33..48 bytes, block lengths 0..40 bytes', funcs=['crysp.serpent.Serpent.__init__', 'crysp.serpent.Serpent.enc', 'crysp.serpent.Serpent.dec'],
+            cases={'n': [n for n in range(0, 49) if n != 16]})
+def _(c):
+    n = c.case('n')
+    if n > 32: c.raises('key-size', Exception, serpent.Serpent, c.bytes('K', n))
+    if n <= 40:
+        s = serpent.Serpent(bytes(16))
+        c.raises('enc-block', Exception, serpent.Serpent.enc, s, c.bytes('B', n))
+        c.raises('dec-block', Exception, serpent.Serpent.dec, s, c.bytes('C', n))
+    c.ensure('nonvacuous', True)
+
+# =====================================================================  Threefish
+from spec import threefish as TF
+import crysp.threefish as threefish
+
+@obligation(P, 'crysp.threefish.Threefish.MIX/post', cls='L', cases={'nw': [4, 8, 16]}, funcs=['crysp.threefish.Threefish.__MIX', 'crysp.threefish.Threefish.__MIXinv'], timeout=200)
+def _(c):
+    nw = c.case('nw')
+    t = threefish.Threefish(bytes(8 * nw), bytes(16))
+    for d in range(8):
+        for j in range(nw // 2):
+            x0 = c.bits('x%d_%d' % (d, j), 64); x1 = c.bits('y%d_%d' % (d, j), 64)
+            r = TF.R[nw][d][j]
+            for dd in (d, d + 8, d + 64):
+                y = c.call(threefish.Threefish._Threefish__MIX, t, x0, x1, dd, j)
+                e = TF.mix(x0.ival, x1.ival, r)
+                c.ensure('MIX d=%d j=%d' % (dd, j), land(val.eq(y[0].ival, e[0]), val.eq(y[1].ival, e[1]), y[0].size == 64, y[1].size == 64, len(y) == 2))
+                z = c.call(threefish.Threefish._Threefish__MIXinv, t, x0, x1, dd, j)
+                e = TF.mix_inv(x0.ival, x1.ival, r)
+                c.ensure('MIXinv d=%d j=%d' % (dd, j), land(val.eq(z[0].ival, e[0]), val.eq(z[1].ival, e[1]), z[0].size == 64, z[1].size == 64, len(z) == 2))
+
+@obligation(P, 'crysp.threefish.Threefish.__init__+ks/post', cls='L', cases={'nw': [4, 8, 16]}, funcs=['crysp.threefish.Threefish.__init__', 'crysp.threefish.Threefish.__ks'])
+def _(c):
+    nw = c.case('nw')
+    key = c.bytes('K', 8 * nw); tw = c.bytes('T', 16)
+    t = c.call(threefish.Threefish, key, tw)
+    k = [val.from_le(list(key[8 * i:8 * i + 8])) for i in range(nw)]; tt = [val.from_le(list(tw[0:8])), val.from_le(list(tw[8:16]))]
+    c.ensure('params', land(t.Nw == nw, t.Nr == (80 if nw == 16 else 72), c.getattr(t, 'blocksize') == 64 * nw))
+    c.ensure('pi', tuple(t._Threefish__pi) == TF.PI[nw] and [t._Threefish__pi[i] for i in t._Threefish__piinv] == list(range(nw)))
+    kw = TF.key_words(k)
+    for s in range(0, t.Nr // 4 + 1):
+        ks = c.call(threefish.Threefish._Threefish__ks, t, s)
+        exp = TF.subkey(kw, tt, s)
+        c.ensure('ks(%d)' % s, land(len(ks) == nw, *[land(val.eq(a.ival, e), a.size == 64) for a, e in zip(ks, exp)]))
+
+@obligation(P, 'crysp.threefish.Threefish.enc-dec/post', cls='L', opaque=TF.NAMES, cases={'nw': [4, 8, 16], 'dir': ['enc', 'dec']}, funcs=['crysp.threefish.Threefish.enc', 'crysp.threefish.Threefish.dec'], timeout=200)
+def _(c):
+    nw = c.case('nw')
+    install_threefish_contracts(c)
+    key = c.bytes('K', 8 * nw); tw = c.bytes('T', 16); blk = c.bytes('B', 8 * nw)
+    t = c.call(threefish.Threefish, key, tw)
+    out = c.call(getattr(threefish.Threefish, c.case('dir')), t, blk)
+    w = lambda bs: [val.from_le(list(bs[8 * i:8 * i + 8])) for i in range(len(bs) // 8)]
+    f = TF.encrypt_words if c.case('dir') == 'enc' else TF.decrypt_words
+    exp = f(w(key), w(tw), w(blk), True)
+    c.ensure('block', val.eq(out, [b for x in exp for b in val.le_bytes(x, 8)]))
+    c.ensure('length', len(out) == 8 * nw)
+
+@obligation(P, 'crysp.threefish.Threefish/rejects', cls='B', bound='key lengths 0..136 bytes step 8 (+odd), tweak lengths 0..24, block lengths != key length', funcs=['crysp.threefish.Threefish.__init__', 'crysp.threefish.Threefish.enc', 'crysp.threefish.Threefish.dec'],
+            cases={'n': [0, 1, 8, 16, 24, 31, 33, 40, 48, 56, 63, 65, 72, 96, 127, 129, 136]})
+def _(c):
+    n = c.case('n')
+    c.raises('key-size', Exception, threefish.Threefish, c.bytes('K', n), bytes(16))
+    if n != 16: c.raises('tweak-size', Exception, threefish.Threefish, bytes(32), c.bytes('T', n))
+    for nw in (4, 8, 16):
+        t = threefish.Threefish(bytes(8 * nw), bytes(16))
+        c.raises('enc-block nw=%d' % nw, Exception, threefish.Threefish.enc, t, c.bytes('B%d' % nw, n))
+        c.raises('dec-block nw=%d' % nw, Exception, threefish.Threefish.dec, t, c.bytes('C%d' % nw, n))
